@@ -248,7 +248,7 @@ def check_property(prop, tier, a):
                         'lineno': o['witness'].get('lineno'), 'detail': o['witness'].get('detail'),
                         'path': o['witness'].get('path'), 'native_replay': rep,
                         'smt2': o['witness'].get('smt', '')})
-            structural_global = o['contract'] == 'structural' and any(k in o['oid'] for k in ('::ownership:memo:', '::ownership:global:', '::registry-write:', '::ownership:attr:self.', '::ownership:mut:self.', '::ownership:item:self.', '::per-execution-allocation:'))
+            structural_global = o['contract'] == 'structural' and any(k in o['oid'] for k in ('::ownership:memo:', '::ownership:global:', '::registry-write:', '::ownership:attr:self.', '::ownership:mut:self.', '::ownership:item:self.', '::per-execution-allocation:', '::instance-state:'))
             if rep.get('status') != 'reproduced' and baseline.get(o['oid']) != 'proved' and not structural_global:
                 # a countermodel that does not replay, on an obligation that never verified on the committed
                 # baseline: undecided (DESIGN 2.1 step 6), not a violation
@@ -393,6 +393,7 @@ def check_property(prop, tier, a):
         'explanation': cfg['explanation'],
         'functions_under_contract': fuc,
         'inlined_callees_verified_with_caller': inlined,
+        'not_claimed_by_contract': sorted(f'{c.key}: {c.note}' for c in mine if getattr(c, 'note', None)),
         'obligation_records': [{k: o[k] for k in ('oid', 'kind', 'verdict', 'vcs', 'seconds', 'tier')} for o in agg.values()],
         'vcs_total': sum(o['vcs'] for o in agg.values()),
         'paths_total': sum(r['paths'] for r in results),
